@@ -318,6 +318,8 @@ def check(rep, F, tier, replay=None):
                 rep.violation("WIT-last", F.key(fid_), "%s stores a script witness (through %s) and can afterwards call %s, which registers the same input again with an empty witness: the native script that locks a UTxO carrying a reference script is missing from the witness set and its signers are not counted (predicted size 233, signed 435)" % (F.key(fid_), (w_.to or "").rsplit("::", 1)[-1], (hit.to or "").rsplit("::", 1)[-1]), {})
                 break
     rep.floor("registration functions ordering empty and witnessed registration", 3, n_wl)
+    from ruleutil import signer_amount_rule
+    signer_amount_rule(rep, F)
     return rep.finish(
         EXPLANATION,
         ["tables/c18_cert_signers.json transcribes the ledger's required-key rules", "fake witnesses have real sizes (fakes.rs)", "Ed25519KeyHashes de-duplicates (C16)"],
